@@ -36,14 +36,14 @@ def cursorsOk (size pseq cseq : Nat) : Prop := cseq ≤ pseq ∧ pseq ≤ cseq +
 /-- C15 on a quiescent state (no thread can take a step): a thread that has not
 finished its program may only be *legitimately* waiting — parked in a wait, with the
 buffer open and its completion condition (`need` bytes of data resp. of space) not
-met by what the other side has committed (`got`). -/
+met by what the other side has committed (`got`) but satisfiable at all (`need ≤ size`). -/
 structure Waiting where
   parked : Bool
   need : Nat
   got : Nat
 
-def quiescentOk (done : Bool) (w : Waiting) : Bool :=
-  w.parked && !done && decide (w.got < w.need)
+def quiescentOk (size : Nat) (done : Bool) (w : Waiting) : Bool :=
+  w.parked && !done && decide (w.got < w.need) && decide (w.need ≤ size)
 
 /-- C15 after `Close`: nobody is left waiting, no mutex is left locked, and later
 calls return (end-of-stream, or bytes committed before the close). -/
